@@ -8,9 +8,10 @@ Definition tc_bool := c_B_BOOL_TYPE.     Definition tc_double := c_B_DOUBLE_TYPE
 Definition tc_int64 := c_B_INT64_TYPE.   Definition tc_int32 := c_B_INT32_TYPE.    Definition tc_int16 := c_B_INT16_TYPE.
 Definition tc_int8 := c_B_INT8_TYPE.     Definition tc_message := c_B_MESSAGE_TYPE. Definition tc_pointer := c_B_POINTER_TYPE.
 Definition tc_point := c_B_POINT_TYPE.   Definition tc_rect := c_B_RECT_TYPE.      Definition tc_string := c_B_STRING_TYPE.
+Definition enc_default := c_MUSCLE_MESSAGE_ENCODING_DEFAULT.
 Definition tc_raw := c_B_RAW_TYPE.       Definition tc_tag := c_B_TAG_TYPE.        Definition tc_any := c_B_ANY_TYPE.
 Extraction "msg_model.ml"
   byte_of_N N_of_byte len flatten flattened_size unflatten rt strip_msg norm_msg chk_msg msg_eq ieq_cpp
   step run empty_msg spec_msg content_msg frame ftype_of_tc flattenable elem_size wire_size cpp_size depth_msg fields_len repr_count
   tc_bool tc_double tc_float tc_int64 tc_int32 tc_int16 tc_int8 tc_message tc_pointer tc_point tc_rect
-  tc_string tc_raw tc_tag tc_any.
+  tc_string tc_raw tc_tag tc_any enc_default takeN.
